@@ -20,13 +20,14 @@ open CTV CTV.Model.AddChain
 /-- The values the handler's helpers read are the ones the model uses: the X.509 entry is `chain[0].Raw`; the issuer key
 hash is over `issuer.RawSubjectPublicKeyInfo` (the bytes in the issuer's certificate, not a re-encoding); the TBS
 comes from `BuildPrecertTBS(cert.RawTBSCertificate, preIssuer)`; the identity hash is over the certificate's DER
-(`cert.Data`); the SCT is built from the leaf **returned** by the backend and takes timestamp and extensions from
-it. -/
+(`cert.Data`); the SCT is built from the leaf **returned** by the backend (`$QueueLeaf` = the local that holds the
+`QueueLeaf` response, `$decl(ct.MerkleTreeLeaf)` = the leaf decoded from it; canonical names of `extract/canon.go`, stable under
+renaming and hoisting) and takes timestamp and extensions from it. -/
 theorem sources_as_modelled :
     ("Data", "chain[0].Raw") ∈ Gen.mtlFields ∧ ("TBSCertificate", "defangedTBS") ∈ Gen.mtlFields ∧
     Gen.mtlKeyHashOf = "issuer.RawSubjectPublicKeyInfo" ∧ Gen.mtlTBSArgs = "cert.RawTBSCertificate, preIssuer" ∧
     Gen.idHashOf = "cert.Data" ∧
-    Gen.sctLeafSource = "rsp.QueuedLeaf.Leaf.LeafValue" ∧ Gen.sctBuiltFrom = "&loggedLeaf" ∧
+    Gen.sctLeafSource = "$QueueLeaf.QueuedLeaf.Leaf.LeafValue" ∧ Gen.sctBuiltFrom = "&$decl(ct.MerkleTreeLeaf)" ∧
     ("Timestamp", "leaf.TimestampedEntry.Timestamp") ∈ Gen.sctFields ∧ ("Extensions", "leaf.TimestampedEntry.Extensions") ∈ Gen.sctFields := by
   decide
 
